@@ -45,7 +45,8 @@ type SBlock struct {
 
 // Discarded is a state update that is executed by the real code on a batch that is never written:
 // Mode "close" = State.Update on a fresh batch that is Closed without Write, "simulate" =
-// Blockchain.Simulate, "badroot" = an Update whose NewRoot check fails (skipVerifyNewRoot=false).
+// Blockchain.Simulate, "badroot" = an Update whose NewRoot check fails (skipVerifyNewRoot=false),
+// "badold" = an Update whose OldRoot is not the root of the state (must be rejected).
 // Reopen = build new StateDB / trie database objects afterwards.
 type Discarded struct {
 	Diff   SBlock `json:"diff"`
@@ -794,6 +795,21 @@ func discardNew(disk *memory.Database, sdb *state.StateDB, prev *felt.Felt, num 
 			return "", fmt.Errorf("an update with a wrong NewRoot was accepted")
 		}
 		return "", nil
+	case "badold":
+		// an update that claims to start from a root the state does not have must be rejected
+		err := disk.Write(func(batch db.Batch) error {
+			st, err := state.New(prev, sdb, batch)
+			if err != nil {
+				return err
+			}
+			bad := felt.FromUint64[felt.Felt](0xdead)
+			su, classes := toUpdate(&d.Diff, &bad)
+			return st.Update(hdr, su, classes, true)
+		})
+		if err == nil {
+			return "", fmt.Errorf("an update with a wrong OldRoot was accepted")
+		}
+		return "", nil
 	default: // close
 		batch := disk.NewBatch()
 		defer batch.Close()
@@ -839,6 +855,17 @@ func discardOld(disk *memory.Database, prev *felt.Felt, num uint64, d *Discarded
 		})
 		if err == nil {
 			return "", fmt.Errorf("an update with a wrong NewRoot was accepted")
+		}
+		return "", nil
+	case "badold":
+		err := disk.Update(func(txn db.IndexedBatch) error {
+			st := deprecatedstate.New(txn)
+			bad := felt.FromUint64[felt.Felt](0xdead)
+			su, classes := toUpdate(&d.Diff, &bad)
+			return st.Update(hdr, su, classes, true)
+		})
+		if err == nil {
+			return "", fmt.Errorf("an update with a wrong OldRoot was accepted")
 		}
 		return "", nil
 	default:
@@ -1001,7 +1028,7 @@ func genBlock(r *lib.RNG, a *absState, p *statePools, ver string) SBlock {
 	return b
 }
 
-var discardModes = []string{"close", "close", "simulate", "simulate", "badroot"}
+var discardModes = []string{"close", "close", "simulate", "simulate", "badroot", "badold"}
 
 func genStateCase(r *lib.RNG, nBlocks int) *StateCase {
 	c := &StateCase{}
@@ -1082,7 +1109,7 @@ func directedStateCases() []*StateCase {
 			{Version: ver, Deployed: map[string]string{"abc": "c1a55"}},
 		}})
 		// a dropped update writes the storage of an existing contract; the next accepted block touches it
-		for _, mode := range []string{"close", "simulate", "badroot"} {
+		for _, mode := range []string{"close", "simulate", "badroot", "badold"} {
 			for _, reopen := range []bool{false, true} {
 				dropped := SBlock{Version: ver, Storage: map[string]map[string]string{"abc": {"1": "9", "5": "7"}, "1": {"7": "3"}},
 					Nonces: map[string]string{"abc": "5"}, Declared: map[string]string{"c1a56": "ca5a2"}}
@@ -1499,6 +1526,29 @@ func checkStateCases(f lib.Flags, res *lib.Result, drv *lib.Driver, cases []*Sta
 						return len(r.OldStored) > 0 && subsetOf(r.OldStored, formulaSwitches(c, !nw)) == atSwitch
 					})}
 			})
+		}
+		// an update with a wrong old root must be rejected
+		for _, ch := range []struct {
+			t    *trace
+			name string
+			nw   bool
+		}{{&o.nw, "state", true}, {&o.old, "deprecatedstate", false}} {
+			if !strings.Contains(ch.t.Leak, "wrong OldRoot was accepted") {
+				continue
+			}
+			t, name, nw := ch.t, ch.name, ch.nw
+			sig := name + "-accepts-wrong-old-root"
+			violateOnce(res, sig, func() lib.Violation {
+				return lib.Violation{Sig: sig, What: "core/" + name + ".Update: " + t.Leak,
+					Replay: rep(func(c *StateCase) bool {
+						r := runOldState(c)
+						if nw {
+							r = runNewState(c)
+						}
+						return strings.Contains(r.Leak, "wrong OldRoot was accepted")
+					})}
+			})
+			t.Leak = ""
 		}
 		// dropped updates must leave no trace
 		if o.nw.Leak != "" {
